@@ -199,8 +199,9 @@ func main() {
 		n := fs.Int("n", 100, "number of scenarios")
 		seed := fs.Int64("seed", 1, "seed")
 		big := fs.Bool("big", false, "include multi-megabyte boundary sizes")
+		sweep := fs.Int("sweep", 300, "every message size up to this one")
 		fs.Parse(args)
-		if err := muxdrv.Generate(*out, *n, *seed, *big); err != nil {
+		if err := muxdrv.Generate(*out, *n, *seed, *big, *sweep); err != nil {
 			fail(err)
 		}
 	case "life":
